@@ -11,7 +11,7 @@ CONSTANTS
   VoidNames = {"img", "br"}
   AttrChoices <- AttrChoicesNone
   WsChoices = {"", "h", "v"}
-  Words = {"w1"}
+  Words = {"w1", "w3"}
   Exprs = {"E1"}
   Conds = {"C1", "C2"}
   Lists = {"L1"}
